@@ -91,6 +91,13 @@ def main():
             for p in failed_pkgs:
                 rel_p = "./" + p.split("github.com/agglayer/aggkit/")[1]
                 rc2, out2 = sh("go test -vet=off -count=1 -timeout 25m %s 2>&1" % rel_p, wt, timeout=3600)
+                for _ in range(3):
+                    # TestStartProfilingHttpServer binds a fixed port: parallel confirmations clash
+                    if set(re.findall(r"^--- FAIL: (\S+)", out2, re.M)) != {"TestStartProfilingHttpServer"}:
+                        break
+                    import random, time
+                    time.sleep(random.uniform(3, 40))
+                    rc2, out2 = sh("go test -vet=off -count=1 -timeout 25m %s 2>&1" % rel_p, wt, timeout=3600)
                 still |= set(re.findall(r"^--- FAIL: (\S+)", out2, re.M))
                 if rc2 != 0 and not re.findall(r"^--- FAIL: (\S+)", out2, re.M):
                     still.add("PKGFAIL:" + p)
